@@ -320,6 +320,54 @@ func genC08(env *core.Env, emit func(core.Case)) {
 			env.Count("retry/" + rd.Err)
 		}
 	}
+	// every interesting value of a record header's length field, in both directions, with a body shorter than,
+	// equal to (where that is possible) or longer than announced: 16-bit arithmetic on the length must not wrap
+	for _, accepted := range []bool{true, false} {
+		for _, dir := range []string{"read", "write"} {
+			idx++
+			keys, rec, _, reg := c07Hello(r, accepted)
+			w := ""
+			var ops []core.Op
+			lens := []int{0, 1, 4, 16384, 16385, 16640, 16641, 0x7ffb, 0x7fff, 0x8000, 0xfff0}
+			for l := 0xfff6; l <= 0xffff; l++ {
+				lens = append(lens, l)
+			}
+			for _, l := range lens {
+				for _, ct := range []byte{22, 23, 21} {
+					for _, have := range []int{0, 1, 7, l} {
+						if have > 17000 || w != "" {
+							continue
+						}
+						s := connh.NewSess(keys)
+						reg(s)
+						if res := s.New(oneChunk(rec), "eof"); res.Err != "-" {
+							continue
+						}
+						data := gen.Cat([]byte{ct, 3, 3, byte(l >> 8), byte(l)}, gen.RandBytes(r, have))
+						if ct == 22 && have > 4 {
+							data[5], data[6], data[7], data[8] = 2, 0, 0, byte(min(have-4, 255))
+						}
+						var io connh.IORes
+						if dir == "read" {
+							s.Read(70000)
+							s.Feed([][]byte{data}, "eof")
+							io = s.Read(70000)
+						} else {
+							io = s.Write(data)
+						}
+						if io.Err == "panic" {
+							w = fmt.Sprintf("%s panics on a record header of content type %d announcing %d bytes, followed by %d: %s", dir, ct, l, have, io.Panic)
+						}
+						ops = append(ops, s.Ops...)
+					}
+				}
+			}
+			ops = append(ops, core.Op{Kind: 'X', Note: "no length field makes Read or Write panic", Want: w})
+			emit(core.Case{Name: fmt.Sprintf("lengthsweep-%s/%d", dir, idx), Stream: "lengthsweep", Ops: ops, Key: "lengthsweep-" + dir,
+				Sig: fmt.Sprintf("lengthsweep-%s/acc%v", dir, accepted), Sample: map[string]any{"mutator": "lengthsweep-" + dir, "accepted": accepted}})
+			env.Count("lengthsweep/" + dir)
+		}
+	}
 	// every value of the first byte of a record's body and every content type, in both directions, while
 	// the Conn still inspects records (ECH accepted) and after: the peers choose these bytes
 	for _, accepted := range []bool{true, false} {
